@@ -604,7 +604,7 @@ def _load_rules():
         if _CORE is None or _EXTRA is None:
             core = {"R4a": rw.r4a_enumerate, "R4c": rw.r4c_rangefrom, "R5": rw.r5_refpattern, "R14": rw.r14_mut_self,
                     "R4b": rw.r4b_array_for, "R4e": rw.r4e_enumerate_skip, "R4f": rw.r4f_iter_for, "R4g": rw.r4g_slice_for,
-                    "R12": rw.r12_tryinto_usize, "R15": rw.r15_cfg_test}
+                    "R12": rw.r12_tryinto_usize, "R15": rw.r15_cfg_test, "R4w": rw.r4w_iter_take_while}
             extra = {}
             import importlib
             import glob as _g
